@@ -215,6 +215,21 @@ func runDecCase(k DecCase) (verdict string) {
 				return fmt.Sprintf("NewDecimalInt(%v) = %v", k.A.Coef, di)
 			}
 		}
+	case "FormatShiftFormat":
+		// text asked for before and after a shift (and a negation): each is the text of its own value
+		_ = a.String()
+		for _, d2 := range []*ion.Decimal{a.ShiftL(k.Arg), a.ShiftR(k.Arg), a.Neg(), a.Abs()} {
+			co, ex := d2.CoEx()
+			s := d2.String()
+			vals, err := reftext.Parse(s, nil)
+			if err != nil || len(vals) != 1 || vals[0].Kind != model.Decimal {
+				return fmt.Sprintf("String() after String()+shift = %q is not one decimal (%v)", s, err)
+			}
+			if got := vals[0].D; got.Coef.Cmp(co) != 0 || got.Exp != ex {
+				return fmt.Sprintf("String() after String()+shift = %q, but CoEx says %vd%d", s, co, ex)
+			}
+			_ = d2.String()
+		}
 	case "Parse":
 		// k.Note holds a literal produced by the reference printer denoting k.A
 		back, err := ion.ParseDecimal(k.Note)
@@ -333,6 +348,7 @@ func runC14(c *Ctx) {
 					co.Neg(co)
 				}
 				decCheck(c, DecCase{Op: "String", A: model.Dec{Coef: co, Exp: int32(-sc)}}, true)
+				decCheck(c, DecCase{Op: "FormatShiftFormat", A: model.Dec{Coef: co, Exp: int32(-sc)}, Arg: nd % 7}, true)
 			}
 		}
 	}
@@ -498,6 +514,12 @@ func runC14(c *Ctx) {
 		p := 1 + r.Intn(320)
 		if int64(a.Exp)+400 < math.MaxInt32 {
 			decCheck(c, DecCase{Op: "Truncate", A: a, Arg: p}, true)
+		}
+		if sh >= -100 && sh <= 100 && int64(a.Exp) > math.MinInt32+200 && int64(a.Exp) < math.MaxInt32-200 {
+			decCheck(c, DecCase{Op: "FormatShiftFormat", A: a, Arg: sh}, true)
+		}
+		if i%500 == 0 {
+			disturbSharedState(int64(i))
 		}
 		decCheck(c, DecCase{Op: "Neg", A: a}, false)
 		decCheck(c, DecCase{Op: "Abs", A: a}, false)
